@@ -125,6 +125,13 @@ def den_of_result(op, game, res, case):
             for name, tl in m.objs.items():
                 cols = sorted(str(c) for c in tl.df.columns)
                 d[name] = sorted((tuple((rnd(v) if isinstance(v, float) else repr(v)) for v in r) for r in rows(tl, cols)), key=repr)
+            # the file-level time fields of the result (file offset, preview point, sample window) place the objects in time when the
+            # result is written: they belong to what the result means
+            for holder in ({id(ms): ms, id(m): m}).values():
+                for f in ("offset", "preview_time", "sample_start", "sample_length", "song_preview_time"):
+                    v = getattr(holder, f, None)
+                    if isinstance(v, (int, float)) and not isinstance(v, bool):
+                        d[f"file field {type(holder).__name__}.{f}"] = rnd(float(v))
             out.append(d)
         return out
     if op in ("hitsound_src", "hitsound_tgt"):
